@@ -197,8 +197,8 @@ void run_case(vf::Case& c)
             char subj[96], args[96];
             std::snprintf(subj, sizeof subj, "chrono::%s", n.name);
             std::snprintf(args, sizeof args, "etl period %lld/%lld, std period %lld/%lld, etl rep %d value bits", n.en, n.ed, n.sn, n.sd, n.edigits);
-            fact(subj, "period::num", "typedef", true, n.en == n.sn, args);
-            fact(subj, "period::den", "typedef", true, n.ed == n.sd, args);
+            fact(subj, "period::num", "typedef", n.en == n.sn, true, args);
+            fact(subj, "period::den", "typedef", n.ed == n.sd, true, args);
             fact(subj, "rep is a signed integer", "typedef", n.esigned && n.eint, true, args);
             fact(subj, "rep has the required bits", "typedef", n.edigits >= n.need, true, args);
             if (vf::want_sample(subj)) { vf::sample(subj, "%s", args); }
